@@ -1012,7 +1012,12 @@ impl OptimizerRule for PushDownFilter {
                 let mut push_predicates = vec![];
                 for expr in predicates {
                     let cols = expr.column_refs();
-                    if cols.iter().all(|c| group_expr_columns.contains(c)) {
+                    // An aggregate without group expressions produces a row even for
+                    // empty input, so no predicate (e.g. a constant `false`, which
+                    // references no columns) can be pushed below it.
+                    if !agg.group_expr.is_empty()
+                        && cols.iter().all(|c| group_expr_columns.contains(c))
+                    {
                         push_predicates.push(replace_cols_by_name(expr, &replace_map)?);
                     } else {
                         keep_predicates.push(expr);
